@@ -298,7 +298,7 @@ func checkEOFGateCountsBytes(r *Run, p *packages.Package) {
 		}
 		n++
 		safe := false
-		for _, l := range pathConditions(fd.Body, rs) {
+		for _, l := range controlConds(fd.Body, rs) {
 			if impliesZero(l.Expr, l.Neg) {
 				safe = true
 			}
